@@ -708,8 +708,10 @@ Section WithFloats.
         end
     end.
 
-  (* json::parse(const std::string &s): the cursor starts at s.c_str() *)
-  Definition parse_at (s : bytes) : res json := load (S (length s)) (s ++ [0%N]).
+  (* json::parse(const std::string &s): the cursor starts at s.c_str().  The fuel is a model artefact:
+     every nesting level and every array / object entry consumes at least one byte, so twice the length
+     is never exhausted on a dump (theorem parse_dump_exact gives the exact bound 2 * number of nodes). *)
+  Definition parse_at (s : bytes) : res json := load (2 * length s + 2) (s ++ [0%N]).
 
   Definition parse (s : bytes) : option json :=
     match parse_at s with Ok v _ => Some v | _ => None end.
